@@ -42,6 +42,8 @@ TREES = {
               'c3': F(3 * 10 ** 9 + 5, sparse=True), 'tiny.txt': F(1)},
     'big': {'big1': F(2 ** 31, sparse=True), 'big2': F(2 ** 32 + 1, sparse=True), 'big3': F(2 ** 40, sparse=True),
             'small.txt': F(3), 'big4.txt': F(2 ** 40, sparse=True)},
+    # sizes near the largest an ext4 file can have, one byte apart: the deviations from the mean are far below the mean's own rounding
+    'huge': {'h1': F(17592186040320, sparse=True), 'h2': F(17592186040320, sparse=True), 'h3.txt': F(17592186040319, sparse=True)},
 }
 # exactly 2^k matching entries (internal batches and buffers have power-of-two sizes)
 for _k in (10, 11, 12, 13):
@@ -108,7 +110,7 @@ def groups(tier, seed):
     for tname in TREES:
         for arg in ARGS:
             for wname, wtext, _ in WHERES:
-                if arg == 'line_count' and (wname not in ('files', 'some', 'nomatch') or tname in ('big', 'close')):
+                if arg == 'line_count' and (wname not in ('files', 'some', 'nomatch') or tname in ('big', 'close', 'huge')):
                     continue
                 if wname in SHORT_CIRCUIT and arg not in ('length(name)', 'size'):
                     continue
@@ -116,9 +118,9 @@ def groups(tier, seed):
                     continue
                 if tname.startswith('pow'):
                     # expensive rows: one or two queries per tree (the subject needs seconds for thousands of buffered rows)
-                    if arg != 'size' or wname not in ('none', 'files') or (tname == 'pow13' and tier == 'quick'):
+                    if arg != 'size' or wname not in ('none', 'files') or (tname == 'pow13' and wname == 'files' and tier == 'quick'):
                         continue
-                    sets_ = [['count', 'min', 'max']] if tier == 'quick' or wname == 'files' else [['count', 'min', 'max'], FUNCS[:5]]
+                    sets_ = [['count', 'min', 'max']] if wname == 'files' else [['count', 'min', 'max'], FUNCS[:5], FUNCS]
                     yield {'tree': tname, 'arg': arg, 'where': wname, 'cases': [{'funcs': ss, 'style': 0} for ss in sets_]}
                     continue
                 cases = []
@@ -265,8 +267,8 @@ def eval_group(env, group, tier):
                 fn = shown.upper() if c['style'] == 2 else shown
                 cols.append(fn + o_ + ('*' if real == 'count' else arg) + c_)
             q = ', '.join(cols) + ' from .' + wclause + ' into list'
-            # thousands of buffered rows take the subject seconds (quadratic in the debug build): a long horizon, not a verdict
-            o = env.run([q], cwd=root, timeout=240.0 if group['tree'].startswith('pow') else 10.0)
+            # thousands of buffered rows: an answer within the horizon all the same (the aggregate is computed once, not per row)
+            o = env.run([q], cwd=root, timeout=30.0 if group['tree'].startswith('pow') else 10.0)
             case = {'tree': group['tree'], 'arg': arg, 'where': wname, 'funcs': c['funcs'], 'style': c['style'], 'query': q}
             res = {'case': case, 'nt': len(set(vals)) >= 2, 'layer': 'n=%d' % len(names)}
             rows = o.rows(len(cols))
@@ -293,7 +295,7 @@ def eval_group(env, group, tier):
             if not bad and len(names) in (1, 9):
                 # the one row carries exactly the selected columns in every format (observed through `into json`)
                 import json as _json
-                oj = env.run([q.replace(' into list', ' into json')], cwd=root, timeout=240.0 if group['tree'].startswith('pow') else 10.0)
+                oj = env.run([q.replace(' into list', ' into json')], cwd=root, timeout=30.0 if group['tree'].startswith('pow') else 10.0)
                 try:
                     objs = _json.loads(oj.out.decode('utf-8', 'replace'))
                     okj = isinstance(objs, list) and len(objs) == 1 and len(objs[0]) == len(set(cols)) and sorted(objs[0].values()) == sorted(row)
